@@ -450,7 +450,7 @@ _ADDED6 = {
     "C16": "(worlds) a reply too large to be relayed is reported with a status other than OK and with 0 bytes sent to the client. ",
     "C17": "(Ledger) num_ids (a quarter of the cases): the keys are called 23, 3 and 1 and the clients are 20.0.0.1, 20.0.0.12 (and 20.0.0.123), so that address and id of different clients read alike when joined. (E2E, fake-time engine) 1..8 successive connections through the real StreamHandler (replay history 0/5/100) reporting to the real collector: valid, random, a replay of an accepted handshake, the server's own response stream sent back; the client stays 0 ms..1 h; tunnel_time_seconds per key must equal the time authenticated connections of that key were open (refused connections held open contribute nothing). Non-trivial (E2E) = a connection that does not authenticate is held for >=1 s. ",
     "C18": "(ServeStop) handlers of generated connections fail (panic) instead of returning; once StreamServe has returned every client must see its connection end within 3 s (the server-side conns stay referenced by the test, so no finalizer closes a forgotten socket). ",
-    "C08": "(Volume) 40 (thorough 2000) generated keys with 24/32-byte salts; the key's own salt generator is asked for 250 000 salts each (10 million in the quick tier) and every salt must be recognised as the server's own for that key, differ from its predecessor, and (one in 1024) not be recognised by a key with another secret. Non-trivial (Volume) = the batch contained salts that open like another protocol. ",
+    "C08": "(Volume) 40 (thorough 1000) generated keys with 24/32-byte salts; the key's own salt generator is asked for 250 000 salts each (10 million in the quick tier) and every salt must be recognised as the server's own for that key, differ from its predecessor, and (one in 1024) not be recognised by a key with another secret. Non-trivial (Volume) = the batch contained salts that open like another protocol. ",
     "C11": "id_clash (a third of the cases): every configuration has one more service, rendered after the retained one, on an address of its own, whose key carries the retained key's id with another cipher and secret. ",
     "C19": "(ReplayRotation) histories of 8..20000 handshakes: rounds of K sequential adds (K in 1..2N+3, so that the burst meets every fill level), a burst of M < N/2 adds from 2..16 goroutines at once, then the most recent of the K presented again: in every sequential order of the burst they are within the last N checked, so each must be refused. ",
     "C20": "(Multi) access-key ids per operation (also small decimal numbers), tunnels that stay open to the end of the history (overlapping lifetimes), and in a third of the cases two clients whose (address, key id) pairs read the same when written one after the other (20.0.0.1 + 23 / 20.0.0.12 + 3). ",
